@@ -45,6 +45,8 @@ pub struct RunResult {
     pub spec: Option<RunSpec>,
     #[serde(default)]
     pub wall_ms: u64,
+    #[serde(default)]
+    pub log: Vec<String>,
 }
 
 impl RunResult {
@@ -216,6 +218,9 @@ pub fn finish_result(
     }
     if index < 3 {
         r.sample = Some(sample_of(spec));
+    }
+    if std::env::var("LSMSIM_KEEP_LOG").is_ok() {
+        r.log = stats.log.clone();
     }
     if let Err(v) = outcome {
         r.tag = v.tag.clone();
